@@ -282,3 +282,126 @@ drop_wipes!(misc_drop_ctr128le, ctr::CtrCore::<P16w2, ctr::flavors::Ctr128LE>::i
 drop_wipes!(misc_drop_belt, belt_ctr::BeltCtrCore::<P16w2>::inner_iv_init(P16w2 { k: [0; 16] }, &fill::<16>().into()),
     |m: &mut belt_ctr::BeltCtrCore<P16w2>| { use cipher::StreamCipherSeekCore; m.set_block_pos(nd::any::<u128>()); },
     |m: &belt_ctr::BeltCtrCore<P16w2>| { let mut v = m.iv_state().to_vec(); let e = P16w2 { k: [0; 16] }.e(m.iv_state().into()); v.extend_from_slice(&e); v });
+
+// ---------------------------------------------------------------- C09: exported state resumes; enc/dec agree; public chaining value
+#[cfg(not(kani))]
+macro_rules! resume_block {
+    ($h:ident, $cipher:ident, $b:expr, $ivn:expr, $enc:ty, $dec:ty, $public:expr) => {
+        /// encrypt k blocks (in place or buffer to buffer), export, import into a fresh instance, continue:
+        /// equals the uninterrupted run; decryptor fed the ciphertext reports the same state; where the
+        /// public chaining value is the last $b ciphertext bytes ($public) the exported value equals it
+        pub fn $h() {
+            let c = $cipher { k: fill() };
+            let iv: [u8; $ivn] = fill();
+            let data: [cipher::Block<$enc>; 5] = [fill::<$b>().into(), fill::<$b>().into(), fill::<$b>().into(), fill::<$b>().into(), fill::<$b>().into()];
+            let k = (nd::any::<u8>() % 6) as usize;
+            let b2b: bool = nd::any();
+            // uninterrupted
+            let mut full = <$enc>::inner_iv_init(c.clone(), &iv.into());
+            let mut ct = data.clone(); full.encrypt_blocks(&mut ct);
+            // interrupted at block k
+            let mut e1 = <$enc>::inner_iv_init(c.clone(), &iv.into());
+            let mut ct2 = data.clone();
+            if b2b { let mut out = data.clone(); e1.encrypt_blocks_b2b(&data[..k], &mut out[..k]).unwrap(); ct2[..k].clone_from_slice(&out[..k]); }
+            else { e1.encrypt_blocks(&mut ct2[..k]); }
+            let st = e1.iv_state();
+            let mut e2 = <$enc>::inner_iv_init(c.clone(), &st);
+            e2.encrypt_blocks(&mut ct2[k..]);
+            assert!(ct2 == ct, "resumed encryption differs from the uninterrupted run");
+            assert!(e2.iv_state() == full.iv_state());
+            // decryptor over the same ciphertext prefix reports the same state
+            let mut d1 = <$dec>::inner_iv_init(c.clone(), &iv.into());
+            let mut pt = ct.clone();
+            if b2b { let mut out = ct.clone(); d1.decrypt_blocks_b2b(&ct[..k], &mut out[..k]).unwrap(); pt[..k].clone_from_slice(&out[..k]); }
+            else { d1.decrypt_blocks(&mut pt[..k]); }
+            assert!(d1.iv_state() == st, "encryptor and decryptor report different states after corresponding data");
+            let mut d2 = <$dec>::inner_iv_init(c.clone(), &d1.iv_state());
+            d2.decrypt_blocks(&mut pt[k..]);
+            assert!(pt == data, "resumed decryption does not return the plaintext");
+            if $public && k > 0 {
+                // last $ivn ciphertext bytes
+                let mut flat: Vec<u8> = Vec::new();
+                for blk in ct[..k].iter() { flat.extend_from_slice(blk); }
+                if flat.len() >= $ivn { assert!(&st[..] == &flat[flat.len() - $ivn..], "exported state is not the public chaining value"); }
+            }
+        }
+    };
+}
+#[cfg(not(kani))]
+resume_block!(misc_resume_cbc, P4w2, 4, 4, cbc::Encryptor<P4w2>, cbc::Decryptor<P4w2>, true);
+#[cfg(not(kani))]
+resume_block!(misc_resume_cbc8, P8w3, 8, 8, cbc::Encryptor<P8w3>, cbc::Decryptor<P8w3>, true);
+#[cfg(not(kani))]
+resume_block!(misc_resume_pcbc, P4w2, 4, 4, pcbc::Encryptor<P4w2>, pcbc::Decryptor<P4w2>, false);
+#[cfg(not(kani))]
+resume_block!(misc_resume_ige, P4w2, 4, 8, ige::Encryptor<P4w2>, ige::Decryptor<P4w2>, false);
+#[cfg(not(kani))]
+resume_block!(misc_resume_cfb, P4w2, 4, 4, cfb_mode::Encryptor<P4w2>, cfb_mode::Decryptor<P4w2>, true);
+#[cfg(not(kani))]
+resume_block!(misc_resume_cfb8w3, P8w3, 8, 8, cfb_mode::Encryptor<P8w3>, cfb_mode::Decryptor<P8w3>, true);
+#[cfg(not(kani))]
+resume_block!(misc_resume_cfb8, P4w2, 1, 4, cfb8::Encryptor<P4w2>, cfb8::Decryptor<P4w2>, true);
+#[cfg(not(kani))]
+resume_block!(misc_resume_ofb, P4w2, 4, 4, ofb::OfbCore<P4w2>, ofb::OfbCore<P4w2>, false);
+
+#[cfg(not(kani))]
+macro_rules! resume_stream {
+    ($h:ident, $cipher:ident, $b:expr, $ty:ty, $core:ty) => {
+        /// keystream of k blocks, export the core's iv_state, fresh instance from it continues the stream
+        pub fn $h() {
+            let c = $cipher { k: fill() };
+            let iv: [u8; $b] = fill();
+            let k = (nd::any::<u8>() % 7) as usize;
+            let data: [u8; 6 * $b + 3] = fill();
+            let mut full = <$ty>::from_core(<$core>::inner_iv_init(c.clone(), &iv.into()));
+            let mut exp = data; full.apply_keystream(&mut exp);
+            let mut a = <$ty>::from_core(<$core>::inner_iv_init(c.clone(), &iv.into()));
+            let mut got = data;
+            let cut = (k * $b).min(got.len());
+            a.apply_keystream(&mut got[..cut]);
+            let st = a.get_core().iv_state();
+            let mut b = <$ty>::from_core(<$core>::inner_iv_init(c.clone(), &st));
+            b.apply_keystream(&mut got[cut..]);
+            assert!(got == exp, "stream resumed from the exported state differs");
+        }
+    };
+}
+#[cfg(not(kani))]
+resume_stream!(misc_resume_ctr32be, P4w2, 4, ctr::Ctr32BE<P4w2>, ctr::CtrCore<P4w2, ctr::flavors::Ctr32BE>);
+#[cfg(not(kani))]
+resume_stream!(misc_resume_ctr64le, P8w3, 8, ctr::Ctr64LE<P8w3>, ctr::CtrCore<P8w3, ctr::flavors::Ctr64LE>);
+#[cfg(not(kani))]
+resume_stream!(misc_resume_ctr128be, P16w2, 16, ctr::Ctr128BE<P16w2>, ctr::CtrCore<P16w2, ctr::flavors::Ctr128BE>);
+#[cfg(not(kani))]
+resume_stream!(misc_resume_belt, P16w2, 16, belt_ctr::BeltCtr<P16w2>, belt_ctr::BeltCtrCore<P16w2>);
+#[cfg(not(kani))]
+resume_stream!(misc_resume_ofbks, P4w2, 4, ofb::Ofb<P4w2>, ofb::OfbCore<P4w2>);
+
+/// buffered CFB: (block, position) exported at any byte resumes; equals the block-level / one-shot front-ends
+#[cfg(not(kani))]
+pub fn misc_resume_cfbbuf() {
+    let c = P4w2 { k: fill() };
+    let iv: [u8; 4] = fill();
+    let data: [u8; 23] = fill();
+    let cut = (nd::any::<u8>() % 24) as usize;
+    let mut full = cfb_mode::BufEncryptor::<P4w2>::inner_iv_init(c.clone(), &iv.into());
+    let mut exp = data; full.encrypt(&mut exp);
+    let mut a = cfb_mode::BufEncryptor::<P4w2>::inner_iv_init(c.clone(), &iv.into());
+    let mut got = data; a.encrypt(&mut got[..cut]);
+    let (siv, spos) = a.get_state();
+    let mut b = cfb_mode::BufEncryptor::<P4w2>::from_state(c.clone(), siv, spos);
+    b.encrypt(&mut got[cut..]);
+    assert!(got == exp);
+    // decryptor side and the block-level front-end agree (C14)
+    let mut d = cfb_mode::BufDecryptor::<P4w2>::inner_iv_init(c.clone(), &iv.into());
+    let mut back = exp; d.decrypt(&mut back[..cut]);
+    let (div, dpos) = d.get_state();
+    assert!(dpos == spos && div == siv, "buffered encryptor / decryptor report different states");
+    let mut d2 = cfb_mode::BufDecryptor::<P4w2>::from_state(c.clone(), div, dpos);
+    d2.decrypt(&mut back[cut..]);
+    assert!(back == data);
+    let mut blk = cfb_mode::Encryptor::<P4w2>::inner_iv_init(c.clone(), &iv.into());
+    let mut blocks: [cipher::Block<P4w2>; 5] = core::array::from_fn(|i| { let mut x = [0u8; 4]; x.copy_from_slice(&data[4 * i..4 * i + 4]); x.into() });
+    blk.encrypt_blocks(&mut blocks);
+    for i in 0..5 { assert!(&blocks[i][..] == &exp[4 * i..4 * i + 4], "buffered CFB differs from block-level CFB"); }
+}
